@@ -472,12 +472,13 @@ type resText struct {
 // artifacts is what a delivery (or a reference fault) needs besides the
 // configuration itself.
 type artifacts struct {
-	res    map[string]resText     // variables the resolver knows
-	env    map[string]interface{} // content of the Env configuration
-	alt    []string               // cfgref, env: where the literal lives (the other setting a message may name)
-	altSrc string                 // the source of that place
-	text   string                 // the delivered text (for messages)
-	spell  *speller               // how the data was spelled (nil: as dumped, nested)
+	res     map[string]resText     // variables the resolver knows
+	env     map[string]interface{} // content of the Env configuration
+	alt     []string               // cfgref, env: where the literal lives (the other setting a message may name)
+	altSrc  string                 // the source of that place
+	text    string                 // the delivered text (for messages)
+	spell   *speller               // how the data was spelled (nil: as dumped, nested)
+	layered bool                   // the data was loaded as two inputs
 }
 
 func newArtifacts() *artifacts {
